@@ -108,6 +108,11 @@ end
 /-- the quirks of the tree under verification (kept in step with /repo by Facts) -/
 def currentQuirks : Quirks := {}
 
+/-- the pinned tree, before the fix commits b8d5ed3 0322e2b 24a7611 ddc5c92 5930b2c -/
+def pinnedQuirks : Quirks :=
+  { hasBreakPanicsOnUnlabelled := true, taglessYieldSwitchPanics := true, switchKindRejectedByReturnNormal := true,
+    switchLastGetsNoNormal := true, nilCondWithPostPanics := true }
+
 /-- rewriteYieldFuncBody: the body of one generator function -/
 def compile (q : Quirks) (body : Stmts) : Except String Stmts := do
   let b ← rwStmts q (p0Stmts body) (Blk.mk0 .delay)
